@@ -266,7 +266,7 @@ def entry_point(chk, ex):
             if r['calls']:
                 seen.add('handler')
                 hid = r['calls'][0][0]
-                e = next(x for x in eps if x.id == hid)
+                e = next(x for x in ctx['eps'] if x.id == hid)
                 m = chk.prove(f'{ctx["tag"]}/handler-only-at-the-header-version', pc, z3.Or(z3.Not(good), z3.Not(zb(e.contains(v))), z3.BoolVal(len(r['calls']) != 1)), extra=ctx['assume'])
                 what = f'handler {hid} ran although the version header is unusable or names a version outside its range'
             else:
@@ -277,12 +277,15 @@ def entry_point(chk, ex):
                               z3.And(z3.Not(good), z3.BoolVal(not (out.discr == 1 and isinstance(st, int) and 400 <= st <= 499))), extra=ctx['assume'])
                 what = f'unusable version header answered {out}'
             if m is not None:
-                case = header_case(m, ctx['present'], ctx['ascii_ok'], ctx['parses'], ctx['hv'], ctx['vmax'])
-                nat = replay([case])[0]
-                want_ok = bool(m.eval(good, model_completion=True))
-                chk.counterexample(f'{what}: header {case["header"]!r} max {case["max"]} -> native policy result {nat}', case, (nat.get('ok') is not None) != want_ok, role='entry-point')
-        for mode in ('CancelOnDisconnect', 'Detached'):
-            g.run(eps, 'dynamic', mode, ok_resp, check, 'entry')
+                case, nat, same = G.native_agrees(chk, ex, m, ctx, r)
+                chk.counterexample(f'{what}: {case["requests"][0]} on {[(e["method"], e["path"], e["versions"]) for e in case["endpoints"]]} max {case["max"]} -> real server {nat}',
+                                   case, same, role='entry-point')
+        # the second table has no version-restricted endpoint at all: the header policy still applies to every request
+        for ti, table in enumerate((eps, [Endpoint(0, 'GET', '/a', 'All'), Endpoint(1, 'PUT', '/a/b', 'All')])):
+            for mode in ('CancelOnDisconnect', 'Detached'):
+                seen.discard('handler')
+                g.run(table, 'dynamic', mode, ok_resp, check, f'entry{ti}')
+                if 'handler' not in seen: raise Inconclusive(f'vacuity: no handler ever runs on entry-point table {ti}')
         if seen != {'handler', 'refused'}: raise Inconclusive(f'vacuity: entry point outcomes {seen}')
     finally:
         ex.models = saved
